@@ -3,7 +3,7 @@
 import os, json, glob, re
 V = os.path.dirname(os.path.dirname(os.path.abspath(__file__)))
 rows = []
-for d in sorted(glob.glob(os.path.join(V, 'seeded', 'C*_[12]'))):
+for d in sorted(glob.glob(os.path.join(V, 'seeded', 'C*_[1-9]'))):
     m = json.load(open(os.path.join(d, 'meta.json')))
     rp = os.path.join(d, 'result.json')
     if not os.path.exists(rp):
@@ -18,12 +18,25 @@ for d in sorted(glob.glob(os.path.join(V, 'seeded', 'C*_[12]'))):
             mm = re.match(r'FAILED OBLIGATION (\S+) \(([^)]*)\)', l)
             if mm:
                 how.append('%s (%s)' % (mm.group(1), mm.group(2)))
+    kind = 'not caught' if prim not in alarms else ('bounded' if how and all(h.startswith('bounded.') or h.startswith('regression.') for h in how) else 'deductive')
+    stats = globals().setdefault('STATS', {})
+    b = m['id'].split('_')[1]
+    stats.setdefault(b, dict(deductive=0, bounded=0, undecided=0, missed=0))
+    if kind == 'not caught':
+        stats[b]['undecided' if prim in und else 'missed'] += 1
+    else:
+        stats[b][kind] += 1
     rows.append('| %s | %s | %s | %s | %s | %s |' % (m['id'], m.get('change', ''), m.get('needs_to_manifest', ''), ', '.join(alarms) or '-', ', '.join(und) or '-', '; '.join(how[:2]) or '-'))
 out = ['### 9.1 Results (quick checks, every claimed property run against every change)', '',
        '"alarm" = exit 1 with a VIOLATION line; "undecided" = exit 2 (lost anchor / unsupported construct / resource limit; never an alarm). The last column is the obligation',
        'reported by the check of the property the change was written to break: a clause name means the deductive verifier refuted it; `bounded.*` means the verifier was',
        'undecided for that property and the bounded native comparison with the spec mirror produced the concrete failing input; `regression.*` means a fixed finding\'s witness reproduced.', '',
        '| id | change | needs | alarms | undecided | obligation reported for the primary property |', '|---|---|---|---|---|---|'] + rows
+STATS = globals().get('STATS', {})
+summ = ['', 'Summary of the last full run (primary property of each change): ' + '; '.join(
+    'batch %s: %d refuted by the deductive verifier, %d by the bounded native fallback/standing check, %d undecided, %d missed' % (('1 (ids _1, _2)' if False else b), v['deductive'], v['bounded'], v['undecided'], v['missed'])
+    for b, v in sorted(STATS.items())) + ' (suffix _1/_2 = batch 1, _3 = batch 2, _4 = batch 3).']
+out += summ
 ben = []
 for d in sorted(glob.glob(os.path.join(V, 'benign', 'B*'))):
     rp = os.path.join(d, 'result.json')
@@ -31,7 +44,7 @@ for d in sorted(glob.glob(os.path.join(V, 'benign', 'B*'))):
         continue
     r = json.load(open(rp))['results']
     ben.append('| %s | %s | %s |' % (os.path.basename(d), ', '.join(k for k, v in r.items() if v['rc'] == 1) or 'none', ', '.join(k for k, v in r.items() if v['rc'] == 2) or 'none'))
-out += ['', '### 9.2 Harmless changes (must never alarm)', '', 'Nine semantics-preserving edits (`benign/<id>/patch.diff`; the 72 tests pass with each). Exit 2 is acceptable, exit 1 is not.', '',
+out += ['', '### 9.2 Harmless changes (must never alarm)', '', 'Semantics-preserving edits (`benign/<id>/patch.diff`; the 72 tests pass with each). Exit 2 is acceptable, exit 1 is not.', '',
         '| id | alarms | undecided |', '|---|---|---|'] + ben
 txt = open(os.path.join(V, 'DESIGN.md')).read()
 block = '<!-- TABLE-BEGIN -->\n' + '\n'.join(out) + '\n<!-- TABLE-END -->'
